@@ -64,6 +64,52 @@ def build_harness(features=("likelysubtags", "serde", "macros")):
 
 
 # ----------------------------------------------------------------------------------------------
+# source-literal dictionary: words the code itself mentions
+# ----------------------------------------------------------------------------------------------
+def source_dictionary(cap=40):
+    """Every short alphanumeric word that occurs in the library's sources as a string / byte-string / char literal or
+    as an integer literal that decodes (little- or big-endian) to ASCII alphanumerics.  Bounded alphabets cannot
+    contain a word the code treats specially; the code's own text can."""
+    import glob
+    words = set()
+    files = []
+    for f in sorted(glob.glob(os.path.join(REPO, "unic-*", "src", "**", "*.rs"), recursive=True)):
+        if "/bin/" in f or f.endswith("tables.rs") or f.endswith("layout_table.rs"):
+            continue
+        files.append(f)
+        src = re.sub(r"//[^\n]*", "", open(f, errors="replace").read())
+        for m in re.finditer(r'b?"([A-Za-z0-9_\-]{1,40})"', src):
+            for t in re.split(r"[-_]", m.group(1)):
+                if 1 <= len(t) <= 8:
+                    words.add(t)
+        for m in re.finditer(r"b?'([A-Za-z0-9])'", src):
+            words.add(m.group(1))
+        for m in re.finditer(r"\b(0x[0-9a-fA-F_]{3,}|[0-9][0-9_]{3,})(?:u8|u16|u32|u64|u128|usize|i32|i64)?\b", src):
+            lit = m.group(1).replace("_", "")
+            try:
+                v = int(lit, 16) if lit.startswith("0x") else int(lit)
+            except ValueError:
+                continue
+            if v <= 0xFFFF or v >= 1 << 64:
+                continue
+            raw = v.to_bytes(8, "little").rstrip(b"\0")
+            for bs in (raw, raw[::-1]):
+                if 2 <= len(bs) <= 8 and all(chr(x).isalnum() and x < 128 for x in bs):
+                    words.add(bs.decode())
+    ws = sorted(words)
+    note = None
+    if len(ws) > cap:
+        note = "source dictionary has %d words, only the first %d are used" % (len(ws), cap)
+        ws = ws[:cap]
+    d = os.path.join(WORK, "data")
+    os.makedirs(d, exist_ok=True)
+    path = os.path.join(d, "dict.json")
+    json.dump([[ord(ch) for ch in w] for w in ws], open(path, "w"))
+    os.environ["VERIF_DICT"] = path
+    return ws, note, len(files)
+
+
+# ----------------------------------------------------------------------------------------------
 # TLC
 # ----------------------------------------------------------------------------------------------
 def fresh_dir(name):
